@@ -16,16 +16,20 @@ EXTENDS Naturals, Sequences, FiniteSets, TLC
 CONSTANTS Users, Epochs, Versions, Values, NodeNames, AzksEpochs,
           HasCache,                  \* the manager was created with a cache
           CachePutBeforeDbWrite,     \* TRUE = pinned behaviour (cache filled before the database write)
-          BulkVersionsUsesEpoch      \* TRUE = pinned behaviour of get_user_state_versions inside a transaction
+          BulkVersionsUsesEpoch,     \* TRUE = pinned behaviour of get_user_state_versions inside a transaction
+          FillPolicy                 \* what a read that missed does with the database's answer when it arrives:
+                                     \* "always" (pinned: put it into the cache), "if_absent", "if_same_generation" (repaired)
 
 VARIABLES db,          \* set of records in the database (at most one per key)
           txnActive, txnMods,    \* transaction flag, pending records (set, at most one per key)
           cacheAzks,   \* {} or {record}: the special slot
           cacheMap,    \* set of [rec, expired]
           canClean,    \* cache cleaning enabled
-          rejectNext   \* the database refuses the next write
+          rejectNext,  \* the database refuses the next write
+          inflight,    \* reads that missed the cache: the database has answered, the answer has not reached the manager yet
+          gen          \* cache write generation: bumped by every write-path put and by flush
 
-svars == <<db, txnActive, txnMods, cacheAzks, cacheMap, canClean, rejectNext>>
+svars == <<db, txnActive, txnMods, cacheAzks, cacheMap, canClean, rejectNext, inflight, gen>>
 
 KeyOf(r) == IF r[1] = "azks" THEN <<"azks">>
             ELSE IF r[1] = "node" THEN <<"node", r[2]>>
@@ -149,24 +153,27 @@ CachePut(R) ==     \* TimedCache::put / batch_put (fresh expiry)
        /\ cacheMap' = { c \in cacheMap : \A r \in R : KeyOf(r) # KeyOf(c.rec) }
                       \cup { [rec |-> r, expired |-> FALSE] : r \in { r \in R : r[1] # "azks" } }
 
+BumpGen == gen' = IF HasCache THEN (gen + 1) % 4 ELSE gen      \* bounded counter (enough to tell "changed")
+
 (* a write of the record set R outside a transaction, or the commit's write *)
 DbWrite(R, res) ==
-  IF rejectNext
+  /\ UNCHANGED inflight
+  /\ IF rejectNext
     THEN /\ res = "err"
          /\ rejectNext' = FALSE
          /\ db' = db
-         /\ IF CachePutBeforeDbWrite THEN CachePut(R) ELSE UNCHANGED <<cacheAzks, cacheMap>>
+         /\ IF CachePutBeforeDbWrite THEN CachePut(R) /\ BumpGen ELSE UNCHANGED <<cacheAzks, cacheMap, gen>>
     ELSE /\ res = "ok"
          /\ rejectNext' = FALSE
          /\ db' = Upsert(db, R)
-         /\ CachePut(R)
+         /\ CachePut(R) /\ BumpGen
 
 SetRecs(R, res) ==       \* set (|R| = 1) and batch_set
   /\ R # {} /\ OneP(R)
   /\ IF txnActive
        THEN /\ res = "ok"
             /\ txnMods' = Upsert(txnMods, R)
-            /\ UNCHANGED <<db, txnActive, cacheAzks, cacheMap, canClean, rejectNext>>
+            /\ UNCHANGED <<db, txnActive, cacheAzks, cacheMap, canClean, rejectNext, inflight, gen>>
        ELSE /\ DbWrite(R, res)
             /\ UNCHANGED <<txnActive, txnMods, canClean>>
 
@@ -174,7 +181,7 @@ Begin(res) ==
   /\ res = ~txnActive
   /\ txnActive' = TRUE
   /\ canClean' = FALSE
-  /\ UNCHANGED <<db, txnMods, cacheAzks, cacheMap, rejectNext>>
+  /\ UNCHANGED <<db, txnMods, cacheAzks, cacheMap, rejectNext, inflight, gen>>
 
 (* commit_transaction: drains the log first; refuses a log without the epoch record *)
 Commit(res) ==
@@ -184,9 +191,9 @@ Commit(res) ==
          /\ txnMods' = {}
          /\ canClean' = TRUE
          /\ IF txnMods = {}
-              THEN res = "ok" /\ UNCHANGED <<db, cacheAzks, cacheMap, rejectNext>>
+              THEN res = "ok" /\ UNCHANGED <<db, cacheAzks, cacheMap, rejectNext, inflight, gen>>
               ELSE IF ~\E r \in txnMods : r[1] = "azks"
-                THEN res = "err" /\ UNCHANGED <<db, cacheAzks, cacheMap, rejectNext>>
+                THEN res = "err" /\ UNCHANGED <<db, cacheAzks, cacheMap, rejectNext, inflight, gen>>
                 ELSE DbWrite(txnMods, res)
 
 Rollback(res) ==
@@ -194,17 +201,35 @@ Rollback(res) ==
     THEN res = "err" /\ UNCHANGED svars
     ELSE /\ res = "ok"
          /\ txnActive' = FALSE /\ txnMods' = {} /\ canClean' = TRUE
-         /\ UNCHANGED <<db, cacheAzks, cacheMap, rejectNext>>
+         /\ UNCHANGED <<db, cacheAzks, cacheMap, rejectNext, inflight, gen>>
 
 Flush ==
   /\ cacheAzks' = {} /\ cacheMap' = {}
-  /\ UNCHANGED <<db, txnActive, txnMods, canClean, rejectNext>>
+  /\ BumpGen
+  /\ UNCHANGED <<db, txnActive, txnMods, canClean, rejectNext, inflight>>
 
 (* a read that misses fills the cache with what the database returned *)
 ReadFill(K) ==
   LET missed == { k \in K : ~(txnActive /\ Lookup(txnMods, k) # {}) /\ CacheHit(k) = {} } IN
   /\ CachePut(UNION { Lookup(db, k) : k \in missed })
-  /\ UNCHANGED <<db, txnActive, txnMods, canClean, rejectNext>>
+  /\ UNCHANGED <<db, txnActive, txnMods, canClean, rejectNext, inflight, gen>>
+
+(* the same read in two steps: the database answers (GetIssue), the answer reaches the manager later *)
+(* (GetComplete) - other calls may run in between                                                     *)
+GetIssue(k) ==
+  /\ HasCache
+  /\ ~(txnActive /\ Lookup(txnMods, k) # {}) /\ CacheHit(k) = {}
+  /\ inflight' = inflight \cup { [key |-> k, val |-> Lookup(db, k), g |-> gen] }
+  /\ UNCHANGED <<db, txnActive, txnMods, cacheAzks, cacheMap, canClean, rejectNext, gen>>
+
+GetComplete(f) ==
+  /\ f \in inflight
+  /\ inflight' = inflight \ {f}
+  /\ LET fill == CASE FillPolicy = "always" -> TRUE
+                    [] FillPolicy = "if_absent" -> CacheHit(f.key) = {}
+                    [] FillPolicy = "if_same_generation" -> f.g = gen
+     IN IF fill THEN CachePut(f.val) ELSE UNCHANGED <<cacheAzks, cacheMap>>
+  /\ UNCHANGED <<db, txnActive, txnMods, canClean, rejectNext, gen>>
 
 (* tombstone_value_states(user, epoch): rewrites values, keeps versions *)
 TombRecs(u, e) ==
@@ -215,22 +240,23 @@ Tombstone(u, e, res) ==
   ELSE IF TombRecs(u, e) = {} THEN res = "ok" /\ UNCHANGED svars
   ELSE SetRecs(TombRecs(u, e), res)
 
-SetClean(b) == canClean' = b /\ UNCHANGED <<db, txnActive, txnMods, cacheAzks, cacheMap, rejectNext>>
+SetClean(b) == canClean' = b /\ UNCHANGED <<db, txnActive, txnMods, cacheAzks, cacheMap, rejectNext, inflight, gen>>
 
 (* environment: time passes (any cached items expire), memory pressure / timed cleaning drops items *)
 Tick == /\ HasCache
         /\ \E X \in SUBSET cacheMap :
              cacheMap' = (cacheMap \ X) \cup { [rec |-> c.rec, expired |-> TRUE] : c \in X }
-        /\ UNCHANGED <<db, txnActive, txnMods, cacheAzks, canClean, rejectNext>>
+        /\ UNCHANGED <<db, txnActive, txnMods, cacheAzks, canClean, rejectNext, inflight, gen>>
 Pressure == /\ HasCache /\ canClean
             /\ \E X \in SUBSET cacheMap : cacheMap' = cacheMap \ X
-            /\ UNCHANGED <<db, txnActive, txnMods, cacheAzks, canClean, rejectNext>>
+            /\ UNCHANGED <<db, txnActive, txnMods, cacheAzks, canClean, rejectNext, inflight, gen>>
 RejectNext == /\ ~rejectNext /\ rejectNext' = TRUE
-              /\ UNCHANGED <<db, txnActive, txnMods, cacheAzks, cacheMap, canClean>>
+              /\ UNCHANGED <<db, txnActive, txnMods, cacheAzks, cacheMap, canClean, inflight, gen>>
 
 Init ==
   /\ db = {} /\ txnActive = FALSE /\ txnMods = {}
   /\ cacheAzks = {} /\ cacheMap = {} /\ canClean = TRUE /\ rejectNext = FALSE
+  /\ inflight = {} /\ gen = 0
 
 ---------------------------------------------------------------------------
 (* invariants *)
